@@ -6,6 +6,7 @@
 # product / configuration information, a FIFO of owed frames of capacity (buffer size - 1) (property C11) and the send gate (C04:
 # address above 251 sends nothing but the address claim).  For every operation of the case it says which frames must be handed to the
 # driver, with which identifier and bytes, and which must not; the answers' contents come from the published PGN layouts below.
+from nodesim import own_addr
 import random
 import vlib
 from nodesim import ref_can_id, ref_fp_decode, pdu1, parse_result
@@ -103,7 +104,7 @@ class Ref:
         self.lenient_notes = False
 
     def src(self, k):
-        return (self.src0 + k) & 255
+        return own_addr(self.src0, k)
 
     def due(self, t):
         return self.now > t if self.strict else self.now >= t
@@ -393,7 +394,7 @@ def gen(seed, tier):
     # 1. plain: accepting driver, empty queue; every device of the node addressed, and broadcast
     for _ in range(60 * N):
         line, ndev, src0, mode = cfg_line(r)
-        own = [(src0 + i) & 255 for i in range(ndev)]
+        own = [own_addr(src0, i) for i in range(ndev)]
         ops = []
         for _k in range(r.randint(3, 8)):
             for _j in range(r.randint(1, 3)):
@@ -406,10 +407,11 @@ def gen(seed, tier):
     # every device of a 9-device node, all four mandatory PGNs + an unknown one, addressed and broadcast
     for ndev in ([9] if not thorough else range(1, 10)):
         line, _, src0, _ = cfg_line(r, ndev=ndev, mode=1, q=40, src0=r.choice([0, 100, 243]))
+        own = [own_addr(src0, i) for i in range(ndev)]
         ops = []
         for k in range(ndev):
             for p in MANDATORY + [127250]:
-                ops += [req(r, 50, src0 + k, p), 'P']
+                ops += [req(r, 50, own[k], p), 'P']
         for p in MANDATORY + [127250, 127500]:
             ops += [req(r, 51, 255, p), 'P']
         cases.append(line + ' | ' + ' ; '.join(ops))
@@ -427,16 +429,17 @@ def gen(seed, tier):
     for dt in dts:
         for _ in range(2 if not thorough else 1):
             line, ndev, src0, mode = cfg_line(r, ndev=r.choice([1, 2, 3]))
+            own = [own_addr(src0, i) for i in range(ndev)]
             k = r.randrange(ndev)
             ops = ['C %d' % k, 'T %d' % dt]
             for p in r.sample(MANDATORY, 2) + [r.choice([127250, 59392, 0xffffff, 129029])]:
-                ops += [req(r, 50, src0 + k, p), req(r, 50, 255, p), req(r, 51, src0 + (k + 1) % ndev, p), 'P']
-            ops += ['T 251', req(r, 52, src0 + k, 126996), req(r, 52, src0 + k, 130000), 'P']
+                ops += [req(r, 50, own[k], p), req(r, 50, 255, p), req(r, 51, own[(k + 1) % ndev], p), 'P']
+            ops += ['T 251', req(r, 52, own[k], 126996), req(r, 52, own[k], 130000), 'P']
             cases.append(line + ' | ' + ' ; '.join(ops))
     # 4. earlier answers still pending: the driver refuses some frames, the queue has room
     for _ in range(40 * N):
         line, ndev, src0, mode = cfg_line(r, q=r.choice([40, 40, 20]))
-        own = [(src0 + i) & 255 for i in range(ndev)]
+        own = [own_addr(src0, i) for i in range(ndev)]
         ops = []
         for _k in range(r.randint(2, 6)):
             if r.random() < 0.7:
@@ -455,7 +458,7 @@ def gen(seed, tier):
         ndev = r.choice([1, 1, 2, 3])
         q = r.choice([1, 2, 3, 5, 8, 12, 21, 40])
         line, ndev, src0, mode = cfg_line(r, ndev=ndev, q=q, src0=r.choice([0, 22, 100, 200, 240]), lists=False)
-        own = [(src0 + i) & 255 for i in range(ndev)]
+        own = [own_addr(src0, i) for i in range(ndev)]
         k = r.randrange(ndev)
         p = r.choice([126996, 126998, 126996, 126998, 126464, 60928, 127250])
         dst = r.choice([own[k], own[k], 255])
@@ -480,7 +483,7 @@ def gen(seed, tier):
     for ndev in range(1, 10):
         for _ in range(1 if not thorough else 4):
             line, _, src0, mode = cfg_line(r, ndev=ndev)
-            own = [(src0 + i) & 255 for i in range(ndev)]
+            own = [own_addr(src0, i) for i in range(ndev)]
             ops = []
             for k in range(ndev):
                 ops += [req(r, r.choice(requesters), own[k], 126998, ln=r.choice([3, 3, 8])), 'P']
@@ -499,7 +502,7 @@ def gen(seed, tier):
     combos += [(r.choice(lens), r.choice(lens), r.choice(lens)) for _ in range(6 if not thorough else 120)]
     for la, lb, lm in combos:
         line, ndev, src0, mode = cfg_line(r, ndev=r.choice([1, 2]), q=40, lists=False)
-        own = [(src0 + i) & 255 for i in range(ndev)]
+        own = [own_addr(src0, i) for i in range(ndev)]
         ops = [req(r, 50, own[0], 126998), 'P', req(r, 51, 255, 126998), 'P', req(r, 52, own[-1], 126998, ln=r.choice([3, 8])), 'P', 'T 3000', 'P']
         cases.append(line + ' conf=%s,%s,%s | ' % (cstr(la), cstr(lb), cstr(lm)) + ' ; '.join(ops))
     # 7. sweep of the requested PGN: every value of the low 16 bits and every value of the high 8 bits occurs (thorough tier);
